@@ -490,7 +490,7 @@ class Flow:
                 if "promoted[" in s:
                     v = self.promoted_value(s)
                     if v:
-                        return ("const", v)
+                        return ("const", self.named_const_literal(v) or v)
                 v = self.named_const_literal(s)
                 if v is not None:
                     return ("const", v)
@@ -503,6 +503,9 @@ class Flow:
             rv = getattr(d, "rv", None) if d is not None else None
             if rv is not None and rv.k == "aggr" and rv.j.get("ak") == "tuple" and str(p.proj[0]["f"]).isdigit() and int(p.proj[0]["f"]) < len(rv.ops):
                 return self.describe(rv.ops[int(p.proj[0]["f"])], depth - 1)
+        ix = self._index_form(p, depth)
+        if ix is not None:
+            return ix
         if p.proj or self.b.local_name(p.local) is not None or depth <= 0:
             if not p.proj and self.b.local_name(p.local) is None:
                 return ("tmp", p.local)
@@ -511,6 +514,21 @@ class Flow:
         if d is None:
             return ("tmp", p.local)
         return self.describe_def(d, depth)
+
+    def _index_form(self, p, depth):
+        """`base[i]` written as a built-in place projection (slices, arrays) gets the description of the call form
+        `Index::index(base, i)` that the same expression has on a Vec"""
+        if depth <= 0 or not p.proj:
+            return None
+        k = None
+        for j, e in enumerate(p.proj):
+            if isinstance(e, dict) and "idx" in e:
+                k = j
+        if k is None or any(e != "*" for e in p.proj[k + 1:]):
+            return None
+        base = _PlaceOp(p.local, p.proj[:k], "[_]")
+        idx = _LocalOperand(p.proj[k]["idx"], "usize")
+        return ("call", "std::ops::Index::index", (self.describe(base, depth - 1), self.describe(idx, depth - 1)))
 
     def describe_def(self, d, depth=4):
         """description of the value a given definition (assignment or call terminator) produces"""
@@ -524,6 +542,9 @@ class Flow:
             if all(e == "*" for e in rv.place.proj) and self.b.local_name(rv.place.local) is None:
                 # a re-borrow of a temporary: describe the temporary itself
                 return self.describe(_LocalOperand(rv.place.local, self.b.local_ty(rv.place.local)), depth - 1)
+            ix = self._index_form(rv.place, depth)
+            if ix is not None:
+                return ix
             return ("place", self.field_path(rv.place))
         if rv.k == "binop":
             return ("binop", rv.j["op"], self.describe(rv.ops[0], depth - 1), self.describe(rv.ops[1], depth - 1))
@@ -619,6 +640,15 @@ class Flow:
             a = {"bb": bb, "test": self.describe(t.discr, depth=10), "targets": list(t.targets), "otherwise": t.otherwise, "ty": t.j["discr_ty"]}
         self._atoms[bb] = a
         return a
+
+
+class _PlaceOp:
+    """an operand that reads an arbitrary place"""
+
+    def __init__(self, local, proj, ty):
+        self.place = Place({"l": local, "p": proj, "ty": ty})
+        self.c = None
+        self.k = "copy"
 
 
 class _LocalOperand:
